@@ -675,6 +675,9 @@ func LogOut(userID interface{}) error {
 		if err != nil {
 			return err
 		}
+		if session == nil {
+			continue // Session does not exist anymore.
+		}
 		session.Lock()
 		session.user = nil
 		session.Unlock()
@@ -711,6 +714,9 @@ func RefreshUser(user User) error {
 		session, err := sessions.Get(sessionID)
 		if err != nil {
 			return err
+		}
+		if session == nil {
+			continue // Session does not exist anymore.
 		}
 		session.Lock()
 		session.user = user
